@@ -2,11 +2,14 @@
 //! (`Context::subtype_of` on `{I: Int | P}` / `{I: Int | Q}`, which goes through structural_supertype_of's refinement arm and
 //! Context::is_super_pred_of). P and Q range over comparison atoms over the constants {-1, 0, 2}, all conjunctions and
 //! disjunctions of two atoms (built with the real Predicate::and / Predicate::or), so that the compound arms of is_super_pred_of
-//! ((And, And), (Or, Or), (lhs, And), (lhs, Or), (Or, rhs), (And, rhs)) are exercised.
+//! ((And, And), (Or, Or), (lhs, And), (lhs, Or), (Or, rhs), (And, rhs)) are exercised; strict comparisons (the real Predicate::lt / gt),
+//! negations (the real Predicate::invert of every compound) and the interval forms a..b, a<..b, a..<b, a<..<b (the real
+//! constructors::int_interval) are included as well.
 //! Contract (soundness only): if `{I | P} <: {I | Q}` is accepted then every integer of -6..=8 that satisfies P satisfies Q.
 //! output: one JSON line {"pairs":n,"accepted":n,"violations":[{"pair":..,"witness":..}]}
 use erg_compiler::context::Context;
-use erg_compiler::ty::constructors::refinement;
+use erg_compiler::ty::constructors::{int_interval, refinement};
+use erg_compiler::ty::IntervalOp;
 use erg_compiler::ty::{Predicate, TyParam, Type, ValueObj};
 
 fn val(tp: &TyParam) -> Option<i64> {
@@ -60,7 +63,26 @@ fn main() {
             preds.push(Predicate::or(a.clone(), b.clone()));
         }
     }
-    let tys: Vec<(Type, Predicate)> = preds.iter().map(|p| (refinement("I".into(), Type::Int, p.clone()), p.clone())).collect();
+    // strict comparisons and negations, built by the real constructors
+    for n in [-1, 0, 2] {
+        preds.push(Predicate::lt("I".into(), TyParam::value(n)));
+        preds.push(Predicate::gt("I".into(), TyParam::value(n)));
+    }
+    let compound: Vec<Predicate> = preds.iter().filter(|p| matches!(p, Predicate::And(_, _) | Predicate::Or(_))).cloned().collect();
+    for c in compound.iter() {
+        preds.push(c.clone().invert());
+    }
+    let mut tys: Vec<(Type, Predicate)> = preds.iter().map(|p| (refinement("I".into(), Type::Int, p.clone()), p.clone())).collect();
+    // interval forms: the refinement the real constructor builds (its own variable name; only the predicate matters to `sat`)
+    for (l, r) in [(-1, 0), (-1, 2), (0, 2)] {
+        for op in [IntervalOp::Closed, IntervalOp::LeftOpen, IntervalOp::RightOpen, IntervalOp::Open] {
+            let t = int_interval(op, TyParam::value(l), TyParam::value(r));
+            if let Type::Refinement(rf) = &t {
+                let p = (*rf.pred).clone();
+                tys.push((t.clone(), p));
+            }
+        }
+    }
     let mut pairs = 0u64;
     let mut accepted = 0u64;
     let mut vio: Vec<(String, i64)> = vec![];
